@@ -176,8 +176,11 @@ def gen_function(r, i):
     lit = None
     mode = r.randint(0, 5)
     if mode == 0:
-        attr = 'name = "n-%d"' % i
-        lit = "n-%d" % i
+        # the configured name is taken as it is written, blanks at its ends and inside included
+        pads = ["", "", "", " ", "  ", "\\t"]
+        nm = "%sn-%d%s%s" % (r.choice(pads), i, r.choice(["", "", " x", "  y"]), r.choice(pads))
+        attr = 'name = "%s"' % nm
+        lit = nm.replace("\\t", "\t")
     elif mode == 1:
         attr = "short_name = true"
         lit = name
